@@ -3,6 +3,7 @@ pub mod c02;
 pub mod c03;
 pub mod c04;
 pub mod c05;
+pub mod c08;
 pub mod c09;
 pub mod c10;
 pub mod c11;
@@ -20,6 +21,8 @@ pub fn run(id: &str, replay: Option<&str>) -> i32 {
         ("C01", Some(p)) => c01::replay(p),
         ("C02", None) => c02::run(started),
         ("C02", Some(p)) => c02::replay(p, c02::Which::C02),
+        ("C08", None) => c08::run(started),
+        ("C08", Some(p)) => c08::replay(p),
         ("C09", None) => c09::run(started),
         ("C09", Some(p)) => c09::replay(p),
         ("C10", None) => c10::run(started),
